@@ -1681,10 +1681,11 @@ class SpaceUpdater(SharedSpaceOperations):
         for n in nx.descendants(self._graph, node):
             self._graph.get_mro(n)
 
-        # Check name conflict between cells and refs of the bases
+        # Check name conflict between cells and refs of the bases and ``refs``
         members = [set().union(*[getattr(self._graph.to_space(b), attr).keys()
                                  for b in mro[1:]])
                    for attr in ("cells", "own_refs")]
+        members[1].update(refs or ())
         if members[0] & members[1]:
             raise NameError("name conflict: %s" % (members[0] & members[1]))
 
